@@ -1124,3 +1124,51 @@ func encWanted(codec string) bool { return strHasPrefix(codec, "avc") || strHasP
 //@ func (*Server).laURLHandlerFunc
 //@   wiring
 //@   callsite kidToKey requires issuedKid: kidPrefixed(arg_kid)
+
+// ---------------------------------------------------------------------------
+// C06: period splitting
+
+// splitPeriod: periods tile wall-clock time (period pNr covers [pNr*periodDur, (pNr+1)*periodDur)
+// seconds, its id and start are functions of pNr alone, the range runs from the period holding
+// the window start to the one holding now), each adaptation set gets the presentation time
+// offset of its period in its own timescale and exactly the segments of its period (reduceS
+// with those bounds), and a period duration that is not a multiple of the segment duration is refused.
+//@ func splitPeriod
+//@   wiring
+//@   requires cfg.PeriodsPerHour != nil ==> 1 <= *cfg.PeriodsPerHour && *cfg.PeriodsPerHour <= 3600
+//@   requires a.SegmentDurMS > 0
+//@   keep divzero: 3600 / *cfg.PeriodsPerHour; periodDur * 1000 % a.SegmentDurMS; wTimes.startTimeMS / (periodDur * 1000); wTimes.nowMS / (periodDur * 1000)
+//@   ensures rejectsNonMultiple: result == nil && cfg.PeriodsPerHour != nil ==> ((3600 / *cfg.PeriodsPerHour) * 1000) % a.SegmentDurMS == 0
+//@   callsite Seconds2DurPtr requires periodStartsAtMultiple: arg0 == pNr * periodDur
+//@   callsite Sprintf requires idIsPeriodNumber: arg0 == "P%d" ==> vararg0.(int) == pNr
+//@   callsite reduceS requires periodBounds: arg_timescale == timeScale && arg_periodStartS == uint64(pNr*periodDur) && arg_periodEndS == uint64((pNr+1)*periodDur)
+//@   callsite Ptr[uint64] requires ptoIsPeriodStart: arg0 == uint64(pNr*periodDur*timeScale)
+//@   callsite Ptr[uint32] requires startNumberIsFirstOfPeriod: arg0 == uint32(pNr*periodDur*timeScale/segDur)
+//@   loop 1 invariant startPeriodNr == wTimes.startTimeMS / (periodDur*1000) && endPeriodNr == wTimes.nowMS / (periodDur*1000) && pNr >= startPeriodNr && periodDur == 3600 / *cfg.PeriodsPerHour
+
+// reduceS: slices the segments of one period out of a SegmentTimeline.  Proved: memory safety
+// and termination for every list of non-nil entries; the scan only stops early at a segment
+// that starts at or after the period end (so no segment starting inside the period is cut off),
+// segments are skipped only while they start before the period start, the first emitted S
+// carries an explicit t, every emitted S is non-nil, and the returned number is the count of
+// skipped segments added to startNumber when something was emitted.
+//@ func reduceS
+//@   requires forall k in [0, len(entries)) :: entries[k] != nil
+//@   ensures  forall k in [0, len(ret0)) :: ret0[k] != nil && ret0[k].T != nil
+//@   ensures  ret1 != nil
+//@   exit 1 requires stopsOnlyAtPeriodEnd: t >= pEnd
+//@   allocates
+//@   loop 1 invariant pStart == periodStartS * uint64(timescale) && pEnd == periodEndS * uint64(timescale)
+//@   loop 1 invariant forall k in [0, len(newS)) :: newS[k] != nil && newS[k].T != nil
+//@   loop 1 invariant forall k in [0, len(entries)) :: entries[k] != nil
+//@   loop 1 invariant currS != nil ==> len(newS) > 0 && newS[len(newS)-1] == currS
+//@   loop 1 invariant currS == nil ==> len(newS) == 0
+//@   loop 1 invariant rangeidx >= 0 && fresh(newS) && (currS != nil ==> fresh(currS))
+//@   loop 2 invariant pStart == periodStartS * uint64(timescale) && pEnd == periodEndS * uint64(timescale) && i >= 0
+//@   loop 2 invariant forall k in [0, len(newS)) :: newS[k] != nil && newS[k].T != nil
+//@   loop 2 invariant forall k in [0, len(entries)) :: entries[k] != nil
+//@   loop 2 invariant currS != nil ==> len(newS) > 0 && newS[len(newS)-1] == currS
+//@   loop 2 invariant currS == nil ==> len(newS) == 0
+//@   loop 2 invariant fresh(newS) && (currS != nil ==> fresh(currS))
+//@   loop 2 invariant e != nil && d == e.D
+//@   loop 2 decreases e.R - i + 1
